@@ -1,7 +1,7 @@
 (** Executable instances of the safety models for the correspondence run (extracted to OCaml):
     every entry point takes plain strings / numbers and returns strings and numbers in [res]. *)
 From Snoopy Require Import Lib.CStr Safety.Mem Safety.CLib Safety.Consts Safety.Lits Safety.Str Safety.Filter Safety.Conf Safety.Ds Safety.Out
-     Expand.Model Expand.Exec Datasource.Cmdline.
+     Safety.Cgroup Safety.Rpname Expand.Model Expand.Exec Datasource.Cmdline.
 From Coq Require Import ZifyBool ZifyN ZifyNat.
 Local Open Scope N_scope.
 
@@ -171,4 +171,14 @@ Section Exec.
     Ok (match r with Some (p, l) => [p; l] | None => [] end, []).
   Definition x_smallfile (content : list byte) (too_large : list byte) : res outv :=
     r <- small_file c content [] too_large ;; Ok ([fst r], [if snd r then 1 else 0]).
+  (** 22-23. cgroup.c / rpname.c with a scripted /proc *)
+  Definition x_cgroup (size : N) (arg pid_text : list byte) (file : option (list byte)) (open_err : list byte) : res outv :=
+    b0 <- wr (z_buf size) 0 NUL ;;
+    r <- cgroup_buf c (s_cg_path c) b0 size arg pid_text file open_err ;;
+    s <- str_of (fst r) ;; Ok ([s], [if snd r then 1 else 0]).
+  Definition rp_sizes_of : rp_sizes := {| path_cap := s_rp_path c; val_max := s_rp_val_max c; ret_cap := s_rp_ret_cap c |}.
+  Definition x_rpname (size : N) (table : list (N * list byte)) (pid : N) : res outv :=
+    b0 <- wr (z_buf size) 0 NUL ;;
+    r <- rpname_buf rp_sizes_of (lookup table) (S (S (List.length table))) pid b0 size ;;
+    s <- str_of (fst r) ;; Ok ([s], [snd r]).
 End Exec.
